@@ -222,7 +222,25 @@ def model(requests, with_unicode=True, names=None):
 
 
 def runner(requests):
-    return run_lines(RUNNER_BIN, [json.dumps(r, ensure_ascii=False) for r in requests])
+    """answers of the Rust runner; a request that kills the process (stack overflow, abort: no unwinding, so `catch_unwind` in
+    the runner cannot see it) is answered {"panic": "process killed by signal N …", "crash": true} and the remaining requests go to a fresh process"""
+    lines = [json.dumps(r, ensure_ascii=False) for r in requests]
+    out = []
+    while True:
+        rest = lines[len(out):]
+        p = subprocess.run([RUNNER_BIN], input="\n".join(rest) + "\n", stdout=subprocess.PIPE, stderr=subprocess.PIPE,
+                           text=True, timeout=3600, env=ENV)
+        got = [json.loads(l) for l in p.stdout.splitlines() if l.strip().startswith("{") and l.rstrip().endswith("}")]
+        if p.returncode == 0:
+            if len(got) != len(rest):
+                raise InfraError("%s answered %d of %d requests" % (RUNNER_BIN, len(got), len(rest)))
+            return out + got
+        if p.returncode > 0 or len(got) >= len(rest):
+            raise InfraError("%s exited with %s: %s" % (RUNNER_BIN, p.returncode, p.stderr[-2000:]))
+        # killed by a signal while answering request number len(got)
+        out += got + [{"panic": "process killed by signal %d (no unwinding)" % -p.returncode, "crash": True, "stderr": p.stderr[-400:]}]
+        if len(out) == len(lines):
+            return out
 
 
 def norm_int_answer(a):
@@ -369,6 +387,11 @@ class Check:
     def __init__(self, prop, tier, seed):
         self.prop, self.tier, self.seed = prop, tier, seed
         self.rng = random.Random(seed)
+        try:
+            import syn_gen
+            syn_gen.STYLE_SALT[0] = seed
+        except ImportError:
+            pass
         self.t0 = time.time()
         self.evaluations = 0
         self.nontrivial = set()
